@@ -70,12 +70,14 @@ def act_sym(A, D, k, p, g, lead=0):
         if p % 2 == 0:
             coef = 1
         u = []
-        for tm in t:
+        tdims = A.dims[lead + D:]
+        for tm, td in zip(t, tdims):
+            tm = arr.to_flat(td, tm)                 # the tensor axis may be a concatenation (e.g. jnp.stack of components)
             if arr.is_z3(tm):
                 raise sym.OutOfReach("act_spec needs concrete tensor indices (enumerate them)")
             tm = int(tm)
             coef *= sgn[tm]
-            u.append(col[tm])
+            u.append(col[tm] if isinstance(td, arr.Atom) else arr.Flat(col[tm]))
         val = A.elem(list(idx[:lead]) + src + u)
         return arr.t_bin("mul", coef, val)
 
